@@ -376,6 +376,10 @@ def check_case(target, module, cls, case, clauses=None):
             return None
     raised = None
     result = None
+    # the code under test must not see /verif on sys.path (griffe names a package relative to the sys.path entry
+    # that contains it, which would silently detach the fixture packages from their docstrings)
+    saved_path = list(sys.path)
+    sys.path[:] = [p for p in sys.path if os.path.abspath(p or ".") != "/verif"]
     try:
         if selfobj is not None:
             result = fn(selfobj, **kwargs)
@@ -383,6 +387,8 @@ def check_case(target, module, cls, case, clauses=None):
             result = fn(**kwargs)
     except Exception as e:   # noqa: BLE001
         raised = e
+    finally:
+        sys.path[:] = saved_path
     bad = []
     if raised is not None:
         rname = f"raises_{type(raised).__name__}"
